@@ -1386,4 +1386,68 @@ mut('c19-inner-arm-replaces', 'C19', ['C19.6'], H,
     "            async with asyncio.timeout(timeout):\n                return await func(*args, **kwargs)  # type: ignore[reportCallIssue]",
     "            try:\n                async with asyncio.timeout(timeout):\n                    return await func(*args, **kwargs)  # type: ignore[reportCallIssue]\n            except TimeoutError as te:\n                raise TimeoutError(f'{func.__name__} timed out') from te",
     'a TimeoutError raised by the function itself is replaced before retry_on is consulted')
+
+# ---- round 7 obligations (minimal one-line regressions)
+mut('c01-selection-break', 'C01', ['C01.2'], S,
+    "            if self._would_create_loop(event, handler):\n                continue\n",
+    "            if self._would_create_loop(event, handler):\n                break\n",
+    'the selection loop ends at the first handler that would create a loop: the handlers after it are not run')
+mut('c06-depth-reset-on-reentry', 'C06', ['C06.8'], S,
+    "            # We already hold the lock in this context, increment depth\n            self._depth += 1",
+    "            # We already hold the lock in this context, increment depth\n            self._depth = 1",
+    'a re-entrant hold resets the counter: the inner exit releases the lock under the outer holder')
+mut('c02-depth-reset-on-reentry', 'C02', ['C02.9'], S,
+    "            # We already hold the lock in this context, increment depth\n            self._depth += 1",
+    "            # We already hold the lock in this context, increment depth\n            self._depth = 1", 'echo')
+mut('c06-depth-not-counted-on-acquire', 'C06', ['C06.8'], S,
+    "        holds_global_lock.set(True)\n        self._depth = 1\n", "        holds_global_lock.set(True)\n", 'the acquiring entry leaves the counter alone')
+mut('c06-exit-double-decrement', 'C06', ['C06.8'], S,
+    "        self._depth -= 1\n        if self._depth == 0:", "        self._depth -= 2\n        if self._depth <= 0:", 'an exit gives back two holds')
+mut('c03-walk-advance-conditional', 'C03', ['C03.3'], S,
+    "                parent_event.event_mark_complete_if_all_handlers_completed()\n\n            # Move up the chain\n            current = parent_event\n",
+    "                parent_event.event_mark_complete_if_all_handlers_completed()\n\n                # Move up the chain\n                current = parent_event\n",
+    'the parent walk advances only past an ancestor it has just re-checked')
+mut('c06-shielded-processing', 'C06', ['C06.1'], S,
+    "                await self.process_event(event, timeout=timeout)\n        finally:",
+    "                await asyncio.shield(self.process_event(event, timeout=timeout))\n        finally:",
+    'processing survives the cancellation of the lock holder')
+mut('c06-processing-as-task', 'C06', ['C06.1'], S,
+    "                await self.process_event(event, timeout=timeout)\n        finally:",
+    "                await asyncio.ensure_future(self.process_event(event, timeout=timeout))\n        finally:",
+    'processing runs as a task of its own')
+mut('c07-path-without-last', 'C07', ['C07.2'], S,
+    "            if target_bus.name in event.event_path:", "            if target_bus.name in event.event_path[:-1]:", 'the last bus of the path is not looked at')
+mut('c12-raise-last-error', 'C12', ['C12.7'], M,
+    "            failing_handler, failing_result = list(error_results.items())[0]  # throw first error",
+    "            failing_handler, failing_result = error_results.popitem()  # throw first error", 'the error of the last failing handler is raised')
+mut('c12-raise-last-error-index', 'C12', ['C12.7'], M,
+    "            failing_handler, failing_result = list(error_results.items())[0]  # throw first error",
+    "            failing_handler, failing_result = list(error_results.items())[-1]  # throw first error", 'the error of the last failing handler is raised')
+mut('c14-raw-datetime-sort-after-accept', 'C14', ['C14.1'], S,
+    "        completed_events.sort(key=lambda x: x[1].event_created_at.timestamp())", "        completed_events.sort(key=lambda x: x[1].event_created_at)",
+    'dispatch can raise TypeError from the cleanup after it has accepted and registered the event')
+mut('c20-self-key-by-hash', 'C20', ['C20.3'], H,
+    "        instance_id = id(args[0])", "        instance_id = hash(args[0])", 'instances that compare equal share one semaphore')
+
+# ---- round 7 neutral variants (harmless small edits whose first contact was a false alarm)
+neutral('n7-idle-named-parts', S,
+    "                if not (self.events_pending or self.events_started or self.event_queue.qsize()):\n                    self._on_idle.set()\n                return None",
+    "                nothing_in_history = not self.events_pending and not self.events_started\n                nothing_queued = self.event_queue.qsize() == 0\n                if nothing_in_history and nothing_queued:\n                    self._on_idle.set()\n                return None",
+    'De Morgan with named parts')
+neutral('n7-retries-left', H,
+    "            if attempt < retries:\n", "            retries_left = retries - attempt\n            if retries_left > 0:\n", 'the loop bound spelled as a difference')
+neutral('n7-queue-empty', M,
+    "                                if bus.event_queue.qsize() > 0:\n", "                                if not bus.event_queue.empty():\n", 'queue.empty()')
+neutral('n7-children-completed-at', M,
+    "            if child_event.event_status != 'completed':\n", "            if child_event.event_completed_at is None:\n", 'status spelled as its timestamp')
+neutral('n7-release-then-clear', S,
+    "            holds_global_lock.set(False)\n            self._get_semaphore().release()\n", "            self._get_semaphore().release()\n            holds_global_lock.set(False)\n",
+    'release and flag clear swapped inside the non-suspending __aexit__')
+neutral('n7-first-error-next-iter', M,
+    "            failing_handler, failing_result = list(error_results.items())[0]  # throw first error",
+    "            failing_handler, failing_result = next(iter(error_results.items()))  # throw first error", 'first item without building the list')
+neutral('n7-shutdown-then-flag', S,
+    "        # Signal shutdown\n        self._is_running = False\n\n        # Shutdown the queue to unblock any pending get() operations\n        if self.event_queue:\n            self.event_queue.shutdown()\n",
+    "        # Shutdown the queue to unblock any pending get() operations\n        if self.event_queue is not None:\n            self.event_queue.shutdown()\n\n        # Signal shutdown\n        self._is_running = False\n",
+    'two independent synchronous steps of stop() swapped')
 MUTANTS[:] = [m for m in MUTANTS if m is not None]
